@@ -4,7 +4,7 @@
     (their [prop_case] is evaluated at run time only). *)
 From V.Lib Require Import Base Hex.
 From V.Gen Require Import C11Consts.
-From V.C11 Require Import Model Spec Tab Eqb Legacy CorrLegacy Gap CorrGap Corr Wf ProofsAddr.
+From V.C11 Require Import Model Spec Tab Eqb Legacy CorrLegacy Gap CorrGap Extra CorrExtra Corr Wf ProofsAddr.
 Local Open Scope N_scope.
 
 Definition bridged (c : case) : bool :=
